@@ -96,3 +96,139 @@ Proof.
   2:{ induction ents as [|[[b s] v] t IH]; cbn [map forallb fst snd]; [reflexivity|]. rewrite IH. reflexivity. }
   destruct (forallb _ ents); reflexivity.
 Qed.
+
+(* ================================================================== memory lists read from stream bytes *)
+(* MinidumpMemoryList::read: a raw descriptor is (start_of_memory_range, data_size, rva); the regions the GENERATED
+   MinidumpMemory::read accepts, in stream order, go to from_regions (indices are positions in the kept vector) *)
+Definition g_memory_list_kept (len : Z) (descs : list (Z * Z * Z)) : list (Z * Z) :=
+  flat_map (fun d => let '(b, s, r) := d in match g_memory_read len b s r with Some e => [e] | None => [] end) descs.
+Definition g_memory_list_read (p : profile) (len : Z) (descs : list (Z * Z * Z)) : outcome (list (range * Z)) :=
+  g_indexed_table (g_mr_MinidumpMemoryBase p) (g_memory_list_kept len descs).
+
+Definition u32 (x : Z) : Prop := 0 <= x < two32.
+Definition desc_ok (d : Z * Z * Z) : Prop := let '(b, s, r) := d in u64 b /\ u32 s /\ u32 r.
+
+Lemma g_memory_read_eq len b s r : u32 s -> u32 r ->
+  g_memory_read len b s r = if memory_read_keep len r s then Some (b, s) else None.
+Proof.
+  intros [Hs1 Hs2] [Hr1 Hr2]. unfold g_memory_read, g_memory_read_null, g_location_slice_ok, memory_read_keep, checked_add.
+  destruct ((r =? 0) || (s =? 0)); cbn [negb andb]; [reflexivity|].
+  assert (E : r + s <? 2 ^ 64 = true) by (apply Z.ltb_lt; unfold two32 in *; lia). rewrite E.
+  assert (E2 : r <=? r + s = true) by (apply Z.leb_le; lia). rewrite E2. cbn [andb]. reflexivity.
+Qed.
+
+Lemma g_memory_list_kept_eq len descs : Forall desc_ok descs ->
+  g_memory_list_kept len descs =
+  map (fun d => (fst (fst d), snd (fst d))) (filter (fun d => memory_read_keep len (snd d) (snd (fst d))) descs) /\
+  u64_ents (g_memory_list_kept len descs).
+Proof.
+  unfold g_memory_list_kept. induction 1 as [|[[b s] r] t (Hb & Hs & Hr) Ht [IH1 IH2]]; cbn [flat_map filter map fst snd].
+  - split; [reflexivity|constructor].
+  - rewrite (g_memory_read_eq len b s r Hs Hr). destruct (memory_read_keep len r s); cbn [app map fst snd].
+    + split; [rewrite IH1; reflexivity|]. constructor; [|exact IH2]. cbn [fst snd]. split; [exact Hb|].
+      destruct Hs as [S1 S2]. unfold u64, two32 in *. rewrite two64_val. lia.
+    + split; assumption.
+Qed.
+
+Lemma memory_read_keep_iff len r s : memory_read_keep len r s = true <-> r <> 0 /\ s <> 0 /\ r + s <= len.
+Proof.
+  unfold memory_read_keep. rewrite andb_true_iff, negb_true_iff, orb_false_iff, !Z.eqb_neq, Z.leb_le. tauto.
+Qed.
+
+(* end to end: whatever the descriptors, the read never fails or traps; the table is the size-based table of the kept
+   regions (a region is kept iff rva <> 0, data_size <> 0 and rva + data_size <= |file|) *)
+Lemma memory_list_read_end_to_end p len descs : Forall desc_ok descs ->
+  let kept := map (fun d => (fst (fst d), snd (fst d)))
+                  (filter (fun d => memory_read_keep len (snd d) (snd (fst d))) descs) in
+  g_memory_list_kept len descs = kept /\
+  exists t, g_memory_list_read p len descs = Ret t /\
+    StronglySorted (fun a b => snd (fst a) < fst (fst b)) t /\
+    (forall x i, rm_get t x = Some i -> 0 <= i /\ exists b s, nth_error kept (Z.to_nat i) = Some (b, s) /\
+                                   s <> 0 /\ b + s < two64 /\ b <= x < b + s) /\
+    (forall e1 b s e2 x, kept = e1 ++ (b, s) :: e2 -> s <> 0 -> b + s < two64 -> b <= x < b + s ->
+        (forall b' s', In (b', s') (e1 ++ e2) -> s' = 0 \/ two64 <= b' + s' \/ b' + s' <= b \/ b + s <= b') ->
+        rm_get t x = Some (Z.of_nat (length e1))).
+Proof.
+  intros H. cbv zeta. destruct (g_memory_list_kept_eq len descs H) as [E U]. split; [exact E|].
+  unfold g_memory_list_read. rewrite <- E.
+  destruct (size_based_end_to_end g_mr_MinidumpMemoryBase (or_intror (or_introl eq_refl)) p _ U) as (t & Ht & Hs & _ & Hl & Hi).
+  exists t. split; [exact Ht|]. split; [exact Hs|]. split; [exact Hl|exact Hi].
+Qed.
+
+(* MinidumpMemory64List::read: regions back to back from the base rva through the GENERATED loop body; None = Err *)
+Fixpoint g_mem64_regions (len rva : Z) (descs : list (Z * Z)) : option (list (Z * Z)) :=
+  match descs with
+  | [] => Some []
+  | d :: t => match g_mem64_step len rva (fst d) (snd d) with
+              | None => None
+              | Some (e, reg) => match g_mem64_regions len e t with None => None | Some l => Some (reg :: l) end
+              end
+  end.
+Definition g_mem64_read (p : profile) (len rva : Z) (descs : list (Z * Z)) : outcome (option (list (range * Z))) :=
+  match g_mem64_regions len rva descs with
+  | None => Ret None
+  | Some regs => do t <- g_indexed_table (g_mr_MinidumpMemoryBase p) regs; Ret (Some t)
+  end.
+
+Lemma g_mem64_regions_eq len descs : u64_ents descs -> forall rva, 0 <= rva ->
+  g_mem64_regions len rva descs = if mem64_ok len rva (map snd descs) then Some descs else None.
+Proof.
+  induction 1 as [|[b s] t [Hb Hs] Ht IH]; intros rva Hr; cbn [g_mem64_regions mem64_ok map fst snd]; [reflexivity|].
+  unfold g_mem64_step, checked_add. cbn [fst snd] in Hs. destruct (rva + s <? 2 ^ 64) eqn:E; [|reflexivity].
+  assert (E2 : rva <=? rva + s = true) by (apply Z.leb_le; destruct Hs; lia). rewrite E2. cbn [andb].
+  destruct (rva + s <=? len); cbn [andb]; [|reflexivity].
+  rewrite IH; [|destruct Hs; lia]. destruct (mem64_ok len (rva + s) (map snd t)); reflexivity.
+Qed.
+
+Lemma sum_nonneg sizes : Forall (fun s => 0 <= s) sizes -> 0 <= fold_right Z.add 0 sizes.
+Proof. induction 1; cbn [fold_right]; lia. Qed.
+
+(* in plain arithmetic: the regions fit iff the last one ends inside the file (an empty list reads nothing) *)
+Lemma mem64_ok_iff len sizes : len < two64 -> Forall (fun s => 0 <= s) sizes -> forall rva, 0 <= rva ->
+  (mem64_ok len rva sizes = true <-> sizes = [] \/ rva + fold_right Z.add 0 sizes <= len).
+Proof.
+  intros Hlen. induction 1 as [|s t Hs Ht IH]; intros rva Hr; cbn [mem64_ok fold_right].
+  - split; [intros _; left; reflexivity|reflexivity].
+  - pose proof (sum_nonneg t Ht) as Hsum. unfold checked_add. rewrite <- two64_val.
+    destruct (rva + s <? two64) eqn:E.
+    + rewrite andb_true_iff, Z.leb_le, (IH (rva + s)); [|lia]. split.
+      * intros [A [->|B]]; right; cbn [fold_right]; lia.
+      * intros [C|C]; [discriminate|]. split; [lia|]. destruct t; [left; reflexivity|right; lia].
+    + apply Z.ltb_ge in E. split; [discriminate|]. intros [C|C]; [discriminate|lia].
+Qed.
+
+Lemma memory64_read_end_to_end p len rva descs : u64_ents descs -> 0 <= rva -> len < two64 ->
+  (g_mem64_read p len rva descs = Ret None /\ descs <> [] /\ len < rva + fold_right Z.add 0 (map snd descs)) \/
+  (exists t, g_mem64_read p len rva descs = Ret (Some t) /\
+     (descs = [] \/ rva + fold_right Z.add 0 (map snd descs) <= len) /\
+     StronglySorted (fun a b => snd (fst a) < fst (fst b)) t /\
+     (forall x i, rm_get t x = Some i -> 0 <= i /\ exists b s, nth_error descs (Z.to_nat i) = Some (b, s) /\
+                                    s <> 0 /\ b + s < two64 /\ b <= x < b + s) /\
+     (forall e1 b s e2 x, descs = e1 ++ (b, s) :: e2 -> s <> 0 -> b + s < two64 -> b <= x < b + s ->
+         (forall b' s', In (b', s') (e1 ++ e2) -> s' = 0 \/ two64 <= b' + s' \/ b' + s' <= b \/ b + s <= b') ->
+         rm_get t x = Some (Z.of_nat (length e1)))).
+Proof.
+  intros H Hr Hlen. unfold g_mem64_read. rewrite (g_mem64_regions_eq len descs H rva Hr).
+  assert (Hnn : Forall (fun s => 0 <= s) (map snd descs)).
+  { apply Forall_map. eapply Forall_impl; [|exact H]. intros a [_ [A _]]. exact A. }
+  pose proof (mem64_ok_iff len (map snd descs) Hlen Hnn rva Hr) as Hiff.
+  destruct (mem64_ok len rva (map snd descs)) eqn:E.
+  - right. destruct (size_based_end_to_end g_mr_MinidumpMemoryBase (or_intror (or_introl eq_refl)) p descs H) as (t & Ht & Hs & _ & Hl & Hi).
+    exists t. rewrite Ht. cbn [obind]. split; [reflexivity|]. split.
+    + destruct (proj1 Hiff eq_refl) as [C|C]; [left; destruct descs; [reflexivity|discriminate]|right; exact C].
+    + split; [exact Hs|]. split; [exact Hl|exact Hi].
+  - left. split; [reflexivity|]. split.
+    + intros ->. cbn in E. discriminate.
+    + destruct (Z_lt_le_dec len (rva + fold_right Z.add 0 (map snd descs))) as [L|G]; [exact L|].
+      exfalso. assert (F : false = true) by (apply Hiff; right; exact G). discriminate F.
+Qed.
+
+(* the driver's kinds 10 / 11 are these models *)
+Lemma run_case_11_err ents qs :
+  o_err (run_case 11 ents qs) = negb (mem64_ok ALL_LEN MEM64_BASE_RVA (map (fun e => snd (fst e)) ents)).
+Proof.
+  unfold run_case. cbn [Z.eqb Pos.eqb].
+  replace (map (fun e : Z * Z * Z => let '(_, s, _) := e in s) ents) with (map (fun e : Z * Z * Z => snd (fst e)) ents).
+  2:{ apply map_ext. intros [[b s] v]. reflexivity. }
+  destruct (mem64_ok _ _ _); [|reflexivity]. unfold pack. destruct (build_indexed _); reflexivity.
+Qed.
